@@ -382,7 +382,7 @@ def _cover(tree, depth):
 TREES = {
     1: [[], [[1, 5]], [[0, 1], [2, 0], [3, 7]]],
     2: [[], [[0, [[1, 5], [2, 6]]], [2, [[0, 7]]]], [[0, []], [1, [[0, 0], [2, 7]]], [3, [[1, 3]]]],
-        [[1, [[0, 1], [3, 2]]], [2, [[3, 4]]]]],
+        [[1, [[0, 1], [3, 2]]], [2, [[3, 4]]]], [[3, []]]],
     3: [[], [[0, [[0, [[3, 1], [4, 2]]], [1, [[4, 3]]]]], [2, [[1, [[0, 9]]]]]],
         [[0, [[1, []], [2, [[0, 7], [1, 0]]]]], [1, []], [3, [[0, [[2, 5]]]]]]],
 }
@@ -656,8 +656,7 @@ def _why(verdict):
 
 
 CLASSES = [  # priority order: a failing case is filed under the first class that explains one of its clauses
-    "swizzle:formats-mutable-dropped", "swap:shape-dropped", "swap:empty-branch:stale-shape",
-    "unflatten:default-dropped", "unflatten:estimated-empty:TypeError",
+    "unflatten:estimated-empty:TypeError", "swap:empty-branch:unswapped-tree-outside-shape",
     "split:relative:lower-outside-active", "split:unaligned-range:upper-outside-active",
     "merge:absolute:active-range-of-upper-rank", "merge:relative:shape-and-active-range-of-upper-rank",
     "flatten:tuple:levels>=2:nested-active-range", "flatten:estimated:shape-from-last-tuple-coordinate",
@@ -678,13 +677,10 @@ def explain(case, tags, clause):
     op = case["op"]
     name = op["name"]
     k = op.get("k", 0)
-    if name == "swizzle" and clause in ("fmts", "mut"):
-        return "swizzle:formats-mutable-dropped"
-    if name == "swap" and clause == "shape":
-        return "swap:empty-branch:stale-shape" if "swap-empty-branch" in tags else "swap:shape-dropped"
+    if name == "swap" and "swap-empty-branch" in tags and \
+            clause in (f"shape@{k}", f"active@{k}", f"shape@{k + 1}", f"active@{k + 1}"):
+        return "swap:empty-branch:unswapped-tree-outside-shape"
     if name == "unflatten":
-        if clause == "dflt":
-            return "unflatten:default-dropped"
         if clause == "error:ERR:TypeError" and "src-est" in tags and "unflatten-entry-not-tuple" in tags:
             return "unflatten:estimated-empty:TypeError"
     if name == "split":
